@@ -1,938 +1,408 @@
-(* Proofs_C34.v — lemmas and proofs for C34. *)
+(* Proofs_C34.v — the top-level loop of the scanner and the theorems of C34. *)
 From Coq Require Import List NArith ZArith Bool Lia.
 Import ListNotations.
-From Verif Require Import Base.Val C34.Model_C34 C34.Spec_C34.
+From Verif Require Import Base.Val C34.Model_C34 C34.Spec_C34 C34.Lemmas_C34.
 Local Open Scope N_scope.
 
-(* ---------------------------------------------------------------- small facts *)
-Lemma slice_app (a s : str) : slice (a ++ s) s = a.
-Proof.
-  unfold slice. rewrite app_length.
-  replace (length a + length s - length s)%nat with (length a) by lia.
-  rewrite firstn_app, Nat.sub_diag, firstn_all. cbn. apply app_nil_r.
-Qed.
-
-(* the character before the position reached after consuming [a] *)
-Definition lastp (p : option N) (a : str) : option N := fold_left (fun _ x => Some x) a p.
-Lemma lastp_app p a b : lastp p (a ++ b) = lastp (lastp p a) b.
-Proof. unfold lastp. apply fold_left_app. Qed.
-Lemma lastp_cons p x a : lastp p (x :: a) = lastp (Some x) a.
-Proof. reflexivity. Qed.
-
-(* one-step unfolding equations of the scanner (all by computation) *)
-Section Eqs.
-Variable g : str.
-Lemma walk_escaped_S n c endc :
-  walk_escaped g (S n) c endc =
-  match suf c with
-  | [] => Ok c
-  | ch :: rest =>
-      if ch =? endc then Ok c
-      else if ch =? cBS then walk_escaped g n (adv1 (adv1 c)) endc
-      else if ch =? cLB then
-        if negb (endc =? cDQ) then do c1 <- walk_escaped g n (adv1 c) cRB; walk_escaped g n (adv1 c1) endc
-        else walk_escaped g n (adv1 c) endc
-      else if ch =? cLP then
-        if negb (endc =? cDQ) then do c1 <- walk_escaped g n (adv1 c) cRP; walk_escaped g n (adv1 c1) endc
-        else walk_escaped g n (adv1 c) endc
-      else if (ch =? cBQ) || (ch =? cDQ) then
-        do c1 <- walk_escaped g n (adv1 c) ch; walk_escaped g n (adv1 c1) endc
-      else if (ch =? cSQ) && negb (endc =? cDQ) then
-        walk_escaped g n (adv1 (walk_no_parsing g (adv1 c) cSQ)) endc
-      else if ch =? cDOL then
-        do c1 <- walk_dollar g n (adv1 c) endc (endc =? cDQ); walk_escaped g n c1 endc
-      else if (ch =? cHASH) && negb (endc =? cDQ) then
-        walk_escaped g n (walk_pound g c (Some endc)) endc
-      else walk_escaped g n (adv1 c) endc
+Definition dropf (vm fm : option (str -> bool)) (d : def) : bool :=
+  match d with
+  | Assign n _ => match vm with Some f => f n | None => false end
+  | Func n _ _ => match fm with Some f => f n | None => false end
   end.
-Proof. reflexivity. Qed.
+Definition expected (vm fm : option (str -> bool)) (ds : list def) : str :=
+  flat_map (fun d => (if dropf vm fm d then [] else render_def d) ++ [cNL]) ds.
 
-Lemma walk_dollar_S n c endc dq :
-  walk_dollar g (S n) c endc dq =
-  match suf c with
-  | [] => EIndex
-  | ch :: rest =>
-      if ch =? cLP then
-        do r <- process_scope g n (adv1 c) cRP None None (suf (adv1 c)) None []; Ok (adv1 (fst r))
-      else if (ch =? cSQ) && negb dq then Ok (adv1 (walk_dollared (adv1 c) cSQ))
-      else if negb (ch =? cLB) then
-        if ch =? cDOL then Ok (adv1 c) else dollar_name g n c endc
-      else dollar_brace g n (adv1 c) endc
-  end.
-Proof. reflexivity. Qed.
-
-Lemma dollar_brace_S n c endc :
-  dollar_brace g (S n) c endc =
-  match suf c with
-  | [] => Ok c
-  | ch :: rest =>
-      if ch =? cRB then Ok (adv1 c)
-      else if ch =? cDOL then do c1 <- walk_dollar g n (adv1 c) endc false; dollar_brace g n c1 endc
-      else dollar_brace g n (adv1 c) endc
-  end.
-Proof. reflexivity. Qed.
-
-Lemma walk_complex_S n c endc level first :
-  walk_complex g (S n) c endc level first =
-  match suf c with
-  | [] => Ok c
-  | ch :: rest =>
-      if ch =? endc then
-        if negb (endc =? cRB) then Ok c
-        else if first then Ok c
-        else if (match prev c with Some x => (x =? cSEMI) || (x =? cNL) | None => false end) then Ok c
-        else walk_complex g n (adv1 c) endc level false
-      else if (level && ((ch =? cSEMI) || (ch =? cNL))) || (negb level && isspace ch) then Ok c
-      else if ch =? cBS then walk_complex g n (adv1 (adv1 c)) endc level false
-      else if ch =? cLT then
-        if level && (match rest with x :: _ => x =? cLT | [] => false end) then
-          do c1 <- walk_here g n (adv1 c); walk_complex g n c1 endc level false
-        else walk_complex g n (adv1 c) endc level false
-      else if ch =? cHASH then
-        if first || (match prev c with Some x => isspace x || (x =? cSEMI) | None => false end)
-        then walk_complex g n (walk_pound g c None) endc level false
-        else walk_complex g n (adv1 c) endc level false
-      else if ch =? cDOL then
-        do c1 <- walk_dollar g n (adv1 c) endc false; walk_complex g n c1 endc level false
-      else if ch =? cLB then
-        do c1 <- walk_escaped g n (adv1 c) cRB; walk_complex g n (adv1 c1) endc level false
-      else if (ch =? cLP) && level then
-        do c1 <- walk_escaped g n (adv1 c) cRP; walk_complex g n (adv1 c1) endc level false
-      else if (ch =? cBQ) || (ch =? cDQ) then
-        do c1 <- walk_escaped g n (adv1 c) ch; walk_complex g n (adv1 c1) endc level false
-      else if (ch =? cSQ) && negb (endc =? cDQ) then
-        walk_complex g n (adv1 (walk_no_parsing g (adv1 c) cSQ)) endc level false
-      else walk_complex g n (adv1 c) endc level false
-  end.
-Proof. reflexivity. Qed.
-
-Lemma env_value_S n c endc :
-  env_value g (S n) c endc =
-  match suf c with
-  | [] => Ok c
-  | ch :: rest =>
-      if isspace ch || (ch =? cSEMI) then Ok c
-      else if ch =? cSQ then env_value g n (adv1 (walk_no_parsing g (adv1 c) cSQ)) endc
-      else if (ch =? cDQ) || (ch =? cBQ) then
-        do c1 <- walk_escaped g n (adv1 c) ch; env_value g n (adv1 c1) endc
-      else if ch =? cLP then
-        do c1 <- walk_escaped g n (adv1 c) cRP; env_value g n (adv1 c1) endc
-      else if ch =? cDOL then
-        match rest with
-        | [] => Ok (adv1 c)
-        | _ :: _ => do c1 <- walk_dollar g n (adv1 c) endc false; env_value g n c1 endc
-        end
-      else do c1 <- walk_complex g n c cSP SPACE true; env_value g n c1 endc
-  end.
-Proof. reflexivity. Qed.
-
-Lemma process_scope_S n c endc vm fm ws we out :
-  process_scope g (S n) c endc vm fm ws we out =
-  match suf c with
-  | [] => Ok (c, out ++ slice ws (match we with Some e => e | None => suf c end))
-  | ch :: rest =>
-    if ch =? endc then Ok (c, out ++ slice ws (match we with Some e => e | None => suf c end))
-    else
-      let out1 := match we with Some e => out ++ slice ws e | None => out end in
-      let ws1 := match we with Some _ => suf c | None => ws end in
-      let com_start := suf c in
-      if isspace ch then process_scope g n (adv1 c) endc vm fm ws1 None out1
-      else if ch =? cHASH then process_scope g n (walk_pound g c (Some endc)) endc vm fm ws1 None out1
-      else
-        match is_function c with
-        | Some (name, c1) =>
-            do r <- process_scope g n c1 cRB None None (suf c1) None [];
-            let c2 := fst r in
-            let we1 := match fm with
-                       | Some f => if f name then Some com_start else None
-                       | None => None end in
-            process_scope g n (adv1 c2) endc vm fm ws1 we1 out1
-        | None =>
-            match is_envvar c with
-            | None =>
-                do c1 <- walk_complex g n c endc COMMAND true;
-                let c2 := match hd_ c1 with
-                          | Some x => if x =? endc then c1 else adv1 c1
-                          | None => c1 end in
-                process_scope g n c2 endc vm fm ws1 None out1
-            | Some (name, c1) =>
-                let we1 := match vm with
-                           | Some f => if f name then Some com_start else None
-                           | None => None end in
-                match suf c1 with
-                | [] => Ok (c1, out1)
-                | _ :: _ =>
-                    do c2 <- env_value g n c1 endc;
-                    process_scope g n c2 endc vm fm ws1 we1 out1
-                end
-            end
-        end
-  end.
-Proof. reflexivity. Qed.
-End Eqs.
-
-(* ---------------------------------------------------------------- fuel-free walkers *)
-Lemma adv1_cons p x r : adv1 (mkcur p (x :: r)) = mkcur (Some x) r.
-Proof. reflexivity. Qed.
-
-Lemma find_from_app ch a : forall p r,
-  forallb (fun x => negb (x =? ch)) a = true ->
-  find_from ch p (a ++ ch :: r) = Some (mkcur (lastp p a) (ch :: r)).
-Proof.
-  induction a as [|x a IH]; intros p r H; cbn.
-  - now rewrite N.eqb_refl.
-  - cbn in H. apply andb_true_iff in H as [H1 H2]. apply negb_true_iff in H1. rewrite H1.
-    now rewrite IH.
-Qed.
-
-Lemma walk_no_parsing_app g ch a p r :
-  forallb (fun x => negb (x =? ch)) a = true ->
-  walk_no_parsing g (mkcur p (a ++ ch :: r)) ch = mkcur (lastp p a) (ch :: r).
-Proof. intros H. unfold walk_no_parsing, find_char. cbn [prev suf]. now rewrite find_from_app. Qed.
-
-Lemma skip_while_app f a : forall p x r,
-  forallb f a = true -> f x = false ->
-  skip_while f p (a ++ x :: r) = Some (mkcur (lastp p a) (x :: r)).
-Proof.
-  induction a as [|y a IH]; intros p x r H Hx; cbn.
-  - now rewrite Hx.
-  - cbn in H. apply andb_true_iff in H as [H1 H2]. rewrite H1. now apply IH.
-Qed.
-
-Lemma render_pairs_cons b c l :
-  render_pairs ((b, c) :: l) = (if b then [cBS; c] else [c]) ++ render_pairs l.
-Proof. reflexivity. Qed.
-
-Lemma walk_dollared_app l : forall p r,
-  forallb ansi_pair l = true ->
-  walk_dollared_from cSQ p (render_pairs l ++ cSQ :: r) = mkcur (lastp p (render_pairs l)) (cSQ :: r).
-Proof.
-  induction l as [|[b c] l IH]; intros p r H.
-  - reflexivity.
-  - cbn [forallb] in H. apply andb_true_iff in H as [H1 H2]. unfold ansi_pair in H1. cbn [fst snd] in H1.
-    apply andb_true_iff in H1 as [_ H1].
-    rewrite render_pairs_cons. destruct b.
-    + change (walk_dollared_from cSQ p (([cBS; c] ++ render_pairs l) ++ cSQ :: r))
-        with (walk_dollared_from cSQ (Some c) (render_pairs l ++ cSQ :: r)).
-      rewrite IH by assumption. reflexivity.
-    + cbn [orb] in H1. apply andb_true_iff in H1 as [Ha Hb].
-      apply negb_true_iff in Ha. apply negb_true_iff in Hb.
-      change (([c] ++ render_pairs l) ++ cSQ :: r) with (c :: (render_pairs l ++ cSQ :: r)).
-      cbn [walk_dollared_from]. rewrite Ha, Hb. rewrite IH by assumption. reflexivity.
-Qed.
-
-(* ---------------------------------------------------------------- tactics *)
-(* decide every test "x =? constant" on a variable character; branches that contradict the
-   boolean side condition H (computed on the constant) are closed *)
-Ltac ctest H :=
-  repeat match goal with
-  | |- context [N.eqb ?x ?c] =>
-      is_var x; destruct (N.eqb_spec x c);
-      [ subst x; try (exfalso; cbv in H; discriminate H) | ]
-  end.
-Ltac lastp_norm := unfold lastp; rewrite ?fold_left_app; cbn [fold_left]; try reflexivity.
-
-Lemma tok_ind2 (P : tok -> Prop) :
-  (forall c, P (TLit c)) -> (forall c, P (TEsc c)) -> (forall s, P (TSq s)) ->
-  (forall l, P (TDq l)) -> (forall s, P (TPE s)) ->
-  (forall l, Forall P l -> P (TBr l)) -> (forall l, Forall P l -> P (TPar l)) ->
-  forall t, P t.
-Proof.
-  intros H1 H2 H3 H4 H5 H6 H7. fix IH 1. intros [c|c|s|l|s|l|l].
-  - apply H1.
-  - apply H2.
-  - apply H3.
-  - apply H4.
-  - apply H5.
-  - apply H6. induction l as [|t l IHl]; constructor; [apply IH | exact IHl].
-  - apply H7. induction l as [|t l IHl]; constructor; [apply IH | exact IHl].
-Qed.
-
-Section W2.
+Section Top.
 Variable g : str.
 
-(* inside double quotes *)
-Lemma walk_dq l : forall n p rest,
-  forallb dq_pair l = true -> (n > length (render_pairs l))%nat ->
-  walk_escaped g n (mkcur p (render_pairs l ++ cDQ :: rest)) cDQ
-  = Ok (mkcur (lastp p (render_pairs l)) (cDQ :: rest)).
+(* what one iteration of the top-level loop does with a whole definition *)
+Definition STEP (d : def) : Prop :=
+  forall n p T' ws we out vm fm, (n > length (render_def d) + 2)%nat ->
+  process_scope g (S n) (mkcur p (render_def d ++ cNL :: T')) cNUL vm fm ws we out =
+  process_scope g n (mkcur (lastp p (render_def d)) (cNL :: T')) cNUL vm fm
+    (match we with Some _ => render_def d ++ cNL :: T' | None => ws end)
+    (if dropf vm fm d then Some (render_def d ++ cNL :: T') else None)
+    (match we with Some e => out ++ slice ws e | None => out end).
+
+Lemma STEP_assign n v : var_name_ok n = true -> value_ok v = true ->
+  (forall m p rest endc, (m > length (render_value v) + 2)%nat ->
+     env_value g m (mkcur p (render_value v ++ cNL :: rest)) endc
+     = Ok (mkcur (lastp p (render_value v)) (cNL :: rest))) ->
+  STEP (Assign n v).
 Proof.
-  induction l as [|[b c] l IH]; intros n p rest H Hn.
-  - destruct n as [|n]; [cbn in Hn; lia|]. reflexivity.
-  - cbn [forallb] in H. apply andb_true_iff in H as [H1 H2].
-    rewrite render_pairs_cons in *. rewrite app_length in Hn.
-    destruct n as [|n]; [lia|].
-    destruct b.
-    + change (([cBS; c] ++ render_pairs l) ++ cDQ :: rest) with (cBS :: c :: (render_pairs l ++ cDQ :: rest)).
-      rewrite walk_escaped_S. cbn [suf].
-      change (cBS =? cDQ) with false. change (cBS =? cBS) with true. cbn iota.
-      rewrite !adv1_cons. rewrite IH; [|assumption|cbn in Hn; lia].
-      lastp_norm.
-    + change (([c] ++ render_pairs l) ++ cDQ :: rest) with (c :: (render_pairs l ++ cDQ :: rest)).
-      rewrite walk_escaped_S. cbn [suf].
-      change (cDQ =? cDQ) with true. cbn [negb].
-      ctest H1; cbn [orb andb negb]; rewrite ?adv1_cons;
-        (rewrite IH; [|assumption|cbn in Hn; lia]); lastp_norm.
-Qed.
-
-(* ${...} *)
-Lemma dollar_brace_app s : forall n p rest endc,
-  forallb pe_char s = true -> (n > length s)%nat ->
-  dollar_brace g n (mkcur p (s ++ cRB :: rest)) endc = Ok (mkcur (Some cRB) rest).
-Proof.
-  induction s as [|c s IH]; intros n p rest endc H Hn; (destruct n as [|n]; [cbn in Hn; lia|]).
-  - reflexivity.
-  - cbn [forallb] in H. apply andb_true_iff in H as [H1 H2].
-    change ((c :: s) ++ cRB :: rest) with (c :: (s ++ cRB :: rest)).
-    rewrite dollar_brace_S. cbn [suf].
-    ctest H1. rewrite adv1_cons. apply IH; [assumption|cbn in Hn; lia].
-Qed.
-
-Lemma walk_dollar_pe s n p rest endc dq :
-  forallb pe_char s = true -> (n > S (length s))%nat ->
-  walk_dollar g n (mkcur p (cLB :: s ++ cRB :: rest)) endc dq = Ok (mkcur (Some cRB) rest).
-Proof.
-  intros H Hn. destruct n as [|n]; [lia|]. rewrite walk_dollar_S. cbn [suf].
-  change (cLB =? cLP) with false. change (cLB =? cSQ) with false. change (cLB =? cLB) with true.
-  cbn [andb negb]. rewrite adv1_cons. apply dollar_brace_app; [assumption|lia].
-Qed.
-End W2.
-
-Section W2toks.
-Variable g : str.
-
-Lemma render_toks_cons t l : render_toks (t :: l) = render_tok t ++ render_toks l.
-Proof. reflexivity. Qed.
-
-(* the balanced-delimiter walker over a token list that ends with its closer *)
-Definition WEc (l : list tok) : Prop :=
-  forall endc n p rest, (endc = cRB \/ endc = cRP) -> (n > length (render_toks l))%nat ->
-  walk_escaped g n (mkcur p (render_toks l ++ endc :: rest)) endc
-  = Ok (mkcur (lastp p (render_toks l)) (endc :: rest)).
-
-Lemma WEc_nil : WEc [].
-Proof.
-  intros endc n p rest He Hn. destruct n as [|n]; [cbn in Hn; lia|].
-  rewrite walk_escaped_S. cbn [render_toks flat_map app suf]. now rewrite N.eqb_refl.
-Qed.
-
-Definition WEstep (t : tok) : Prop := tok_ok true t = true -> forall tl, WEc tl -> WEc (t :: tl).
-
-Lemma forallb_neq_sq s : forallb sq_char s = true -> forallb (fun x => negb (x =? cSQ)) s = true.
-Proof.
-  induction s as [|x s IH]; cbn; [reflexivity|]. intros H. apply andb_true_iff in H as [H1 H2].
-  unfold sq_char in H1. apply andb_true_iff in H1 as [H1 _]. rewrite H1. now apply IH.
-Qed.
-
-Lemma WEstep_all : forall t, WEstep t.
-Proof.
-  apply tok_ind2.
-  - (* TLit *) intros c Hok tl IH endc n p rest He Hn.
-    rewrite render_toks_cons in *. cbn [render_tok] in *. rewrite app_length in Hn. cbn [length] in Hn.
-    destruct n as [|n]; [lia|].
-    change (([c] ++ render_toks tl) ++ endc :: rest) with (c :: (render_toks tl ++ endc :: rest)).
-    rewrite walk_escaped_S. cbn [suf]. cbn [tok_ok] in Hok.
-    destruct He; subst endc; ctest Hok; cbn [orb andb negb]; rewrite ?adv1_cons;
-      (rewrite IH; [|auto|lia]); lastp_norm.
-  - (* TEsc *) intros c Hok tl IH endc n p rest He Hn.
-    rewrite render_toks_cons in *. cbn [render_tok] in *. rewrite app_length in Hn. cbn [length] in Hn.
-    destruct n as [|n]; [lia|].
-    change (([cBS; c] ++ render_toks tl) ++ endc :: rest) with (cBS :: c :: (render_toks tl ++ endc :: rest)).
-    rewrite walk_escaped_S. cbn [suf].
-    destruct He; subst endc; cbn; rewrite ?adv1_cons; (rewrite IH; [|auto|lia]); lastp_norm.
-  - (* TSq *) intros s Hok tl IH endc n p rest He Hn.
-    rewrite render_toks_cons in *. cbn [render_tok] in *. rewrite !app_length in Hn. cbn [length] in Hn.
-    destruct n as [|n]; [lia|].
-    replace ((([cSQ] ++ s ++ [cSQ]) ++ render_toks tl) ++ endc :: rest)
-      with (cSQ :: (s ++ cSQ :: (render_toks tl ++ endc :: rest)))
-      by (cbn; rewrite <- !app_assoc; reflexivity).
-    rewrite walk_escaped_S. cbn [suf]. cbn [tok_ok] in Hok.
-    assert (Hs := forallb_neq_sq s Hok).
-    destruct He; subst endc; cbn -[walk_no_parsing walk_escaped]; rewrite ?adv1_cons;
-      rewrite walk_no_parsing_app by assumption; rewrite adv1_cons;
-      (rewrite IH; [|auto|lia]); lastp_norm.
-  - (* TDq *) intros l Hok tl IH endc n p rest He Hn.
-    rewrite render_toks_cons in *. cbn [render_tok] in *. rewrite !app_length in Hn. cbn [length] in Hn.
-    destruct n as [|n]; [lia|].
-    replace ((([cDQ] ++ render_pairs l ++ [cDQ]) ++ render_toks tl) ++ endc :: rest)
-      with (cDQ :: (render_pairs l ++ cDQ :: (render_toks tl ++ endc :: rest)))
-      by (cbn; rewrite <- !app_assoc; reflexivity).
-    rewrite walk_escaped_S. cbn [suf]. cbn [tok_ok] in Hok.
-    destruct He; subst endc; cbn -[walk_escaped]; rewrite ?adv1_cons;
-      (rewrite walk_dq; [|assumption|lia]); cbn [bind]; rewrite adv1_cons;
-      (rewrite IH; [|auto|lia]); lastp_norm.
-  - (* TPE *) intros s Hok tl IH endc n p rest He Hn.
-    rewrite render_toks_cons in *. cbn [render_tok] in *. rewrite !app_length in Hn. cbn [length] in Hn.
-    destruct n as [|n]; [lia|].
-    replace ((([cDOL; cLB] ++ s ++ [cRB]) ++ render_toks tl) ++ endc :: rest)
-      with (cDOL :: (cLB :: s ++ cRB :: (render_toks tl ++ endc :: rest)))
-      by (cbn; rewrite <- !app_assoc; reflexivity).
-    rewrite walk_escaped_S. cbn [suf]. cbn [tok_ok] in Hok.
-    destruct He; subst endc; cbn -[walk_escaped walk_dollar]; rewrite ?adv1_cons;
-      (rewrite walk_dollar_pe; [|assumption|lia]); cbn [bind];
-      (rewrite IH; [|auto|lia]); lastp_norm.
-  - (* TBr *) intros l HF Hok tl IH endc n p rest He Hn.
-    assert (Hl : WEc l).
-    { cbn [tok_ok] in Hok. clear -HF Hok. induction l as [|t l IHl]; [apply WEc_nil|].
-      cbn [forallb] in Hok. apply andb_true_iff in Hok as [H1 H2]. inversion HF; subst.
-      apply H3; [assumption|]. apply IHl; assumption. }
-    rewrite render_toks_cons in *. cbn [render_tok] in *. rewrite !app_length in Hn. cbn [length] in Hn.
-    destruct n as [|n]; [lia|].
-    replace ((([cLB] ++ flat_map render_tok l ++ [cRB]) ++ render_toks tl) ++ endc :: rest)
-      with (cLB :: (render_toks l ++ cRB :: (render_toks tl ++ endc :: rest)))
-      by (unfold render_toks; cbn; rewrite <- !app_assoc; reflexivity).
-    rewrite walk_escaped_S. cbn [suf].
-    destruct He; subst endc; cbn -[walk_escaped]; rewrite ?adv1_cons;
-      (rewrite Hl; [|auto|fold (render_toks l) in Hn; lia]); cbn [bind]; rewrite adv1_cons;
-      (rewrite IH; [|auto|lia]); fold (render_toks l); lastp_norm.
-  - (* TPar *) intros l HF Hok tl IH endc n p rest He Hn.
-    assert (Hl : WEc l).
-    { cbn [tok_ok] in Hok. clear -HF Hok. induction l as [|t l IHl]; [apply WEc_nil|].
-      cbn [forallb] in Hok. apply andb_true_iff in Hok as [H1 H2]. inversion HF; subst.
-      apply H3; [assumption|]. apply IHl; assumption. }
-    rewrite render_toks_cons in *. cbn [render_tok] in *. rewrite !app_length in Hn. cbn [length] in Hn.
-    destruct n as [|n]; [lia|].
-    replace ((([cLP] ++ flat_map render_tok l ++ [cRP]) ++ render_toks tl) ++ endc :: rest)
-      with (cLP :: (render_toks l ++ cRP :: (render_toks tl ++ endc :: rest)))
-      by (unfold render_toks; cbn; rewrite <- !app_assoc; reflexivity).
-    rewrite walk_escaped_S. cbn [suf].
-    destruct He; subst endc; cbn -[walk_escaped]; rewrite ?adv1_cons;
-      (rewrite Hl; [|auto|fold (render_toks l) in Hn; lia]); cbn [bind]; rewrite adv1_cons;
-      (rewrite IH; [|auto|lia]); fold (render_toks l); lastp_norm.
-Qed.
-
-Lemma WEc_all l : forallb (tok_ok true) l = true -> WEc l.
-Proof.
-  induction l as [|t l IH]; intros H; [apply WEc_nil|].
-  cbn [forallb] in H. apply andb_true_iff in H as [H1 H2].
-  apply WEstep_all; auto.
-Qed.
-End W2toks.
-
-Section W1.
-Variable g : str.
-
-(* the statement walker (function level, COMMAND_PARSING, endchar "}") over one statement *)
-Definition WCc (l : list tok) : Prop :=
-  forall n p rest sep first, (sep = cSEMI \/ sep = cNL) -> (n > length (render_toks l))%nat ->
-  walk_complex g n (mkcur p (render_toks l ++ sep :: rest)) cRB COMMAND first
-  = Ok (mkcur (lastp p (render_toks l)) (sep :: rest)).
-
-Lemma WCc_nil : WCc [].
-Proof.
-  intros n p rest sep first Hs Hn. destruct n as [|n]; [cbn in Hn; lia|].
-  rewrite walk_complex_S. cbn [render_toks flat_map app suf].
-  destruct Hs; subst sep; reflexivity.
-Qed.
-
-Lemma WCc_cons t tl : tok_ok1 t = true -> WCc tl -> WCc (t :: tl).
-Proof.
-  intros Hok IH n p rest sep first Hs Hn.
-  rewrite render_toks_cons in *.
-  destruct t as [c|c|s|l|s|l|l]; cbn [render_tok] in *; rewrite ?app_length in Hn; cbn [length] in Hn;
-    (destruct n as [|n]; [lia|]).
-  - (* TLit *)
-    change (([c] ++ render_toks tl) ++ sep :: rest) with (c :: (render_toks tl ++ sep :: rest)).
-    rewrite walk_complex_S. cbn [suf]. cbn [tok_ok1] in Hok.
-    ctest Hok; cbn [orb andb negb COMMAND]; rewrite ?adv1_cons;
-      (rewrite IH; [|auto|lia]); lastp_norm.
-  - (* TEsc *)
-    change (([cBS; c] ++ render_toks tl) ++ sep :: rest) with (cBS :: c :: (render_toks tl ++ sep :: rest)).
-    rewrite walk_complex_S. cbn [suf]. cbn. rewrite ?adv1_cons. (rewrite IH; [|auto|lia]); lastp_norm.
-  - (* TSq *)
-    replace ((([cSQ] ++ s ++ [cSQ]) ++ render_toks tl) ++ sep :: rest)
-      with (cSQ :: (s ++ cSQ :: (render_toks tl ++ sep :: rest)))
-      by (cbn; rewrite <- !app_assoc; reflexivity).
-    rewrite walk_complex_S. cbn [suf]. cbn [tok_ok1 tok_ok] in Hok.
-    assert (Hs' := forallb_neq_sq s Hok).
-    cbn -[walk_no_parsing walk_complex]. rewrite ?adv1_cons.
-    rewrite walk_no_parsing_app by assumption. rewrite adv1_cons.
-    (rewrite IH; [|auto|lia]); lastp_norm.
-  - (* TDq *)
-    replace ((([cDQ] ++ render_pairs l ++ [cDQ]) ++ render_toks tl) ++ sep :: rest)
-      with (cDQ :: (render_pairs l ++ cDQ :: (render_toks tl ++ sep :: rest)))
-      by (cbn; rewrite <- !app_assoc; reflexivity).
-    rewrite walk_complex_S. cbn [suf]. cbn [tok_ok1 tok_ok] in Hok.
-    cbn -[walk_escaped walk_complex]. rewrite ?adv1_cons.
-    (rewrite walk_dq; [|assumption|lia]). cbn [bind]. rewrite adv1_cons.
-    (rewrite IH; [|auto|lia]); lastp_norm.
-  - (* TPE *)
-    replace ((([cDOL; cLB] ++ s ++ [cRB]) ++ render_toks tl) ++ sep :: rest)
-      with (cDOL :: (cLB :: s ++ cRB :: (render_toks tl ++ sep :: rest)))
-      by (cbn; rewrite <- !app_assoc; reflexivity).
-    rewrite walk_complex_S. cbn [suf]. cbn [tok_ok1 tok_ok] in Hok.
-    cbn -[walk_dollar walk_complex]. rewrite ?adv1_cons.
-    (rewrite walk_dollar_pe; [|assumption|lia]). cbn [bind].
-    (rewrite IH; [|auto|lia]); lastp_norm.
-  - (* TBr *)
-    replace ((([cLB] ++ flat_map render_tok l ++ [cRB]) ++ render_toks tl) ++ sep :: rest)
-      with (cLB :: (render_toks l ++ cRB :: (render_toks tl ++ sep :: rest)))
-      by (unfold render_toks; cbn; rewrite <- !app_assoc; reflexivity).
-    rewrite walk_complex_S. cbn [suf]. cbn [tok_ok1 tok_ok] in Hok.
-    cbn -[walk_escaped walk_complex]. rewrite ?adv1_cons.
-    (rewrite (WEc_all g l Hok); [|auto|fold (render_toks l) in Hn; lia]). cbn [bind]. rewrite adv1_cons.
-    (rewrite IH; [|auto|lia]); fold (render_toks l); lastp_norm.
-  - (* TPar *)
-    replace ((([cLP] ++ flat_map render_tok l ++ [cRP]) ++ render_toks tl) ++ sep :: rest)
-      with (cLP :: (render_toks l ++ cRP :: (render_toks tl ++ sep :: rest)))
-      by (unfold render_toks; cbn; rewrite <- !app_assoc; reflexivity).
-    rewrite walk_complex_S. cbn [suf]. cbn [tok_ok1 tok_ok] in Hok.
-    cbn -[walk_escaped walk_complex]. rewrite ?adv1_cons.
-    (rewrite (WEc_all g l Hok); [|auto|fold (render_toks l) in Hn; lia]). cbn [bind]. rewrite adv1_cons.
-    (rewrite IH; [|auto|lia]); fold (render_toks l); lastp_norm.
-Qed.
-
-Lemma WCc_all l : forallb tok_ok1 l = true -> WCc l.
-Proof.
-  induction l as [|t l IH]; intros H; [apply WCc_nil|].
-  cbn [forallb] in H. apply andb_true_iff in H as [H1 H2]. apply WCc_cons; auto.
-Qed.
-End W1.
-
-(* ---------------------------------------------------------------- statement starts *)
-Lemma isblank_isspace c : isblank c = true -> isspace c = true.
-Proof.
-  unfold isblank. intros H. apply orb_true_iff in H as [H|H]; apply N.eqb_eq in H; subst; reflexivity.
-Qed.
-
-Lemma no_eq_app a b : no_eq_before_stop a = true -> no_eq_before_stop (a ++ b) = true.
-Proof.
-  induction a as [|c a IH]; cbn [no_eq_before_stop app]; [discriminate|].
-  destruct (envvar_stop c); [reflexivity|]. destruct (c =? cEQ); [discriminate|]. exact IH.
-Qed.
-Lemma first_nonblank_app a b d : first_nonblank a = Some d -> first_nonblank (a ++ b) = Some d.
-Proof.
-  induction a as [|c a IH]; cbn [first_nonblank app]; [discriminate|]. destruct (isblank c); [exact IH|auto].
-Qed.
-Lemma word_then_app a b d : word_then a = Some d -> word_then (a ++ b) = Some d.
-Proof.
-  induction a as [|c a IH]; cbn [word_then app]; [discriminate|].
-  destruct (name_stop c); [|exact IH].
-  intros H. change (c :: a ++ b) with ((c :: a) ++ b). now apply first_nonblank_app.
-Qed.
-Lemma diverges_app w a b : diverges w a = true -> starts_with w (a ++ b) = false.
-Proof.
-  revert a; induction w as [|x w IH]; intros [|y a]; cbn; try discriminate.
-  destruct (x =? y); [|reflexivity]. intros H. rewrite IH by assumption. reflexivity.
-Qed.
-
-Lemma envvar_scan_none s : forall f p, no_eq_before_stop s = true -> envvar_scan f p s = None.
-Proof.
-  induction s as [|c s IH]; intros f p; cbn [no_eq_before_stop envvar_scan]; [discriminate|].
-  destruct (envvar_stop c); [reflexivity|]. destruct (c =? cEQ); [discriminate|]. apply IH.
-Qed.
-
-Lemma skip_blank_spec t : forall p,
-  match skip_while isblank p t with
-  | None => first_nonblank t = None
-  | Some c => exists x r, suf c = x :: r /\ first_nonblank t = Some x
+  intros Hn Hv EVv m p T' ws we out vm fm Hm.
+  cbn [render_def] in *. rewrite !app_length in Hm. cbn [length] in Hm.
+  assert (Hn' := Hn). unfold var_name_ok in Hn'. apply andb_true_iff in Hn' as [Hn' _].
+  apply andb_true_iff in Hn' as [Hne Hid].
+  destruct n as [|c n]; [discriminate|]. cbn [forallb] in Hid. apply andb_true_iff in Hid as [Hc _].
+  destruct (ident_facts c Hc) as (Hsp&_&_&_&_&Hh&Hz).
+  replace (((c :: n) ++ [cEQ] ++ render_value v) ++ cNL :: T')
+    with ((c :: n) ++ cEQ :: (render_value v ++ cNL :: T'))
+    by (rewrite <- !app_assoc; reflexivity).
+  rewrite process_scope_S. cbn [suf app]. rewrite Hz, Hsp, Hh.
+  change (c :: n ++ cEQ :: render_value v ++ cNL :: T') with ((c :: n) ++ cEQ :: render_value v ++ cNL :: T').
+  rewrite is_function_assign by assumption. rewrite is_envvar_assign by assumption.
+  cbn [suf]. destruct (render_value v ++ cNL :: T') eqn:E; [destruct (render_value v); discriminate|].
+  rewrite <- E. rewrite EVv by lia. cbn [bind dropf].
+  match goal with
+  | |- process_scope _ _ ?c1 _ _ _ _ ?w1 _ = process_scope _ _ ?c2 _ _ _ _ ?w2 _ =>
+      assert (E1 : c1 = c2); [|assert (E2 : w1 = w2); [|rewrite E1, E2; reflexivity]]
   end.
-Proof.
-  induction t as [|d t IH]; intros p; cbn [skip_while first_nonblank]; [reflexivity|].
-  destruct (isblank d); [apply IH|]. cbn [suf]. eauto.
+  - f_equal. unfold lastp. cbn [app fold_left]. rewrite ?fold_left_app. cbn [fold_left]. reflexivity.
+  - try (destruct vm as [fv|]; [destruct (fv _)|]; reflexivity);
+    try (destruct fm as [ff|]; [destruct (ff _)|]; reflexivity).
 Qed.
 
-Lemma word_then_skip s : forall p,
-  match skip_while (fun x => negb (name_stop x)) p s with
-  | None => word_then s = None
-  | Some c => word_then s = first_nonblank (suf c)
+Lemma STEP_func n lead b : func_name_ok n = true -> forallb isspace lead = true -> body_ok b = true ->
+  STEP (Func n lead b).
+Proof.
+  intros Hn Hl Hb m p T' ws we out vm fm Hm.
+  cbn [render_def] in *. rewrite !app_length in Hm. cbn [length] in Hm.
+  assert (Hn' := Hn). unfold func_name_ok in Hn'. apply andb_true_iff in Hn' as [Hn' _].
+  apply andb_true_iff in Hn' as [Hne Hid].
+  destruct n as [|c n]; [discriminate|]. cbn [forallb] in Hid. apply andb_true_iff in Hid as [Hc _].
+  destruct (fname_facts c Hc) as (Hsp&_&_&Hh&Hz).
+  replace ((func_head (c :: n) ++ lead ++ render_body b ++ [cRB]) ++ cNL :: T')
+    with (func_head (c :: n) ++ (lead ++ render_body b ++ cRB :: cNL :: T'))
+    by (rewrite <- !app_assoc; reflexivity).
+  rewrite process_scope_S.
+  assert (Ehd : suf (mkcur p (func_head (c :: n) ++ lead ++ render_body b ++ cRB :: cNL :: T'))
+                = c :: (n ++ [cSP; cLP; cRP; cSP; cNL; cLB]) ++ lead ++ render_body b ++ cRB :: cNL :: T')
+    by reflexivity.
+  rewrite Ehd. rewrite Hz, Hsp, Hh. rewrite is_function_head by assumption.
+  cbn [suf].
+  replace m with (length lead + (m - length lead))%nat at 1 by (unfold func_head in Hm; rewrite app_length in Hm; lia).
+  rewrite ps_ws by (assumption || reflexivity).
+  destruct (PB g b (m - length lead)%nat (lastp (Some cLB) lead) (cNL :: T')
+              (lead ++ render_body b ++ cRB :: cNL :: T') [] Hb
+              ltac:(unfold func_head in Hm; rewrite app_length in Hm; lia)) as [o Ho].
+  rewrite Ho. cbn [bind fst]. rewrite adv1_cons. cbn [dropf].
+  match goal with
+  | |- process_scope _ _ ?c1 _ _ _ _ ?w1 _ = process_scope _ _ ?c2 _ _ _ _ ?w2 _ =>
+      assert (E1 : c1 = c2); [|assert (E2 : w1 = w2); [|rewrite E1, E2; reflexivity]]
   end.
-Proof.
-  induction s as [|c s IH]; intros p; cbn [skip_while word_then]; [reflexivity|].
-  destruct (name_stop c); cbn [negb]; [reflexivity|apply IH].
+  - f_equal. unfold lastp. cbn [app fold_left]. rewrite ?fold_left_app. cbn [fold_left]. reflexivity.
+  - try (destruct vm as [fv|]; [destruct (fv _)|]; reflexivity);
+    try (destruct fm as [ff|]; [destruct (ff _)|]; reflexivity).
 Qed.
 
-Lemma is_envvar_none p c r :
-  isspace c = false -> no_eq_before_stop (c :: r) = true -> is_envvar (mkcur p (c :: r)) = None.
+(* the newline after a definition *)
+Lemma ps_newline n q T' vm fm ws we out :
+  process_scope g (S n) (mkcur q (cNL :: T')) cNUL vm fm ws we out =
+  process_scope g n (mkcur (Some cNL) T') cNUL vm fm
+    (match we with Some _ => cNL :: T' | None => ws end) None
+    (match we with Some e => out ++ slice ws e | None => out end).
+Proof. rewrite process_scope_S. reflexivity. Qed.
+
+Lemma render_cons d ds : render (d :: ds) = render_def d ++ cNL :: render ds.
+Proof. unfold render. cbn [flat_map]. rewrite <- app_assoc. reflexivity. Qed.
+
+Lemma slice_self s : slice s s = [].
+Proof. unfold slice. now rewrite Nat.sub_diag. Qed.
+
+Definition out_of (r : res (cur * str)) : option str :=
+  match r with Ok (_, o) => Some o | _ => None end.
+
+Lemma TL ds : Forall STEP ds ->
+  forall n p ws we out A vm fm,
+  ws = A ++ (match we with Some e => e | None => render ds ++ [cNUL] end) ->
+  (n > 2 * length (render ds ++ [cNUL]))%nat ->
+  out_of (process_scope g n (mkcur p (render ds ++ [cNUL])) cNUL vm fm ws we out)
+  = Some (out ++ A ++ expected vm fm ds).
 Proof.
-  intros Hc H. unfold is_envvar. cbn [prev suf skip_while].
-  destruct (isblank c) eqn:E; [apply isblank_isspace in E; congruence|].
-  cbn [opt_bind prev suf]. now rewrite envvar_scan_none.
+  induction 1 as [|d ds Hd _ IH]; intros n p ws we out A vm fm Hws Hn.
+  - destruct n as [|n]; [cbn in Hn; lia|]. rewrite process_scope_S. cbn [render flat_map app suf].
+    change (cNUL =? cNUL) with true. cbn iota. cbn [out_of]. f_equal. f_equal.
+    subst ws. destruct we; cbn [expected flat_map]; rewrite slice_app; now rewrite app_nil_r.
+  - rewrite render_cons in *. rewrite <- app_assoc in *. cbn [app] in *.
+    rewrite app_length in Hn. cbn [length] in Hn.
+    assert (HL : (length (render ds ++ [cNUL]) >= 1)%nat) by (rewrite app_length; cbn; lia).
+    destruct n as [|n]; [lia|]. rewrite Hd by lia.
+    destruct n as [|n]; [lia|]. rewrite ps_newline.
+    set (T' := render ds ++ [cNUL]) in *.
+    set (X := render_def d) in *.
+    cbn [expected flat_map]. fold (expected vm fm ds).
+    destruct (dropf vm fm d); cbv iota.
+    + (* dropped: the window is closed at the start of the definition *)
+      erewrite (IH _ _ _ _ _ [cNL] _ _); [|reflexivity|lia].
+      f_equal. subst ws.
+      destruct we; rewrite ?slice_app, ?slice_self; cbn [app]; rewrite ?app_nil_r, <- ?app_assoc; reflexivity.
+    + (* kept: the window goes on *)
+      destruct we as [e|].
+      * erewrite (IH _ _ _ _ _ (X ++ [cNL]) _ _); [|rewrite <- app_assoc; reflexivity|lia].
+        f_equal. subst ws. rewrite slice_app. rewrite <- !app_assoc. reflexivity.
+      * erewrite (IH _ _ _ _ _ (A ++ X ++ [cNL]) _ _); [|subst ws; rewrite <- !app_assoc; reflexivity|lia].
+        f_equal. rewrite <- !app_assoc. reflexivity.
+Qed.
+End Top.
+
+(* ---------------------------------------------------------------- array values *)
+Definition seg_tok (v : vseg) : list tok :=
+  match v with VDq s => [TDq s] | VAnsi s => [TAnsi s] | _ => [] end.
+Definition elem_toks (e : str * list vseg) : list tok :=
+  TLit 91 :: map TLit (fst e) ++ [TLit 93; TLit cEQ] ++ flat_map seg_tok (snd e).
+Fixpoint elems_toks (l : list (str * list vseg)) : list tok :=
+  match l with
+  | [] => []
+  | e :: r => match r with [] => elem_toks e | _ :: _ => elem_toks e ++ TLit cSP :: elems_toks r end
+  end.
+
+Lemma render_toks_app a b : render_toks (a ++ b) = render_toks a ++ render_toks b.
+Proof. unfold render_toks. apply flat_map_app. Qed.
+Lemma render_map_lit s : render_toks (map TLit s) = s.
+Proof. induction s as [|c s IH]; [reflexivity|]. cbn. f_equal. exact IH. Qed.
+Lemma render_seg_toks l : forallb elem_seg_ok l = true -> render_toks (flat_map seg_tok l) = render_vsegs l.
+Proof.
+  induction l as [|v l IH]; [reflexivity|]. cbn [forallb]. intros H. apply andb_true_iff in H as [H1 H2].
+  cbn [flat_map]. rewrite render_toks_app, IH by assumption.
+  destruct v; try discriminate; cbn; rewrite ?app_nil_r; reflexivity.
+Qed.
+Lemma ok_seg_toks l : forallb elem_seg_ok l = true -> forallb (tok_ok true) (flat_map seg_tok l) = true.
+Proof.
+  induction l as [|v l IH]; [reflexivity|]. cbn [forallb]. intros H. apply andb_true_iff in H as [H1 H2].
+  cbn [flat_map]. rewrite forallb_app, IH by assumption.
+  destruct v; try discriminate; cbn [seg_tok forallb tok_ok elem_seg_ok vseg_ok] in *; rewrite H1; reflexivity.
+Qed.
+Lemma ident_lit c : is_ident c = true -> tok_ok true (TLit c) = true.
+Proof.
+  intros H. cbn [tok_ok]. apply orb_true_iff. left. unfold lit_char, mem. cbn [existsb].
+  ctest H; reflexivity.
 Qed.
 
-Lemma is_function_none p c r d :
-  isspace c = false -> starts_with kw_function (c :: r) = false ->
-  word_then (c :: r) = Some d -> (d =? cLP) = false ->
-  is_function (mkcur p (c :: r)) = None.
+Definition elem_ok (e : str * list vseg) : bool := forallb idx_char (fst e) && forallb elem_seg_ok (snd e).
+
+Lemma elem_toks_spec e : elem_ok e = true ->
+  render_toks (elem_toks e) = [91] ++ fst e ++ [93; cEQ] ++ render_vsegs (snd e)
+  /\ forallb (tok_ok true) (elem_toks e) = true.
 Proof.
-  intros Hc Hk Hw Hd. unfold is_function. cbn [prev suf skip_while].
-  destruct (isblank c) eqn:E; [apply isblank_isspace in E; congruence|].
-  cbn [opt_bind prev suf]. rewrite Hk. cbn [prev suf skip_while]. rewrite Hc. cbn [opt_bind prev suf].
-  pose proof (word_then_skip (c :: r) p) as W.
-  destruct (skip_while (fun x => negb (name_stop x)) p (c :: r)) as [c4|]; [|reflexivity].
-  cbn [opt_bind]. destruct (slice (c :: r) (suf c4)); [reflexivity|].
-  rewrite Hw in W.
-  pose proof (skip_blank_spec (suf c4) (prev c4)) as B.
-  destruct (skip_while isblank (prev c4) (suf c4)) as [c5|]; [|reflexivity].
-  cbn [opt_bind]. destruct B as (x & r5 & E5 & F). rewrite E5.
-  rewrite F in W. injection W as ->. rewrite Hd. reflexivity.
+  unfold elem_ok. intros H. apply andb_true_iff in H as [Hi Hs]. unfold elem_toks. split.
+  - change (TLit 91 :: map TLit (fst e) ++ [TLit 93; TLit cEQ] ++ flat_map seg_tok (snd e))
+      with ([TLit 91] ++ map TLit (fst e) ++ [TLit 93; TLit cEQ] ++ flat_map seg_tok (snd e)).
+    rewrite !render_toks_app, render_map_lit, render_seg_toks by assumption. reflexivity.
+  - cbn [forallb]. rewrite !forallb_app. rewrite ok_seg_toks by assumption.
+    assert (forallb (tok_ok true) (map TLit (fst e)) = true) as ->.
+    { clear -Hi. induction (fst e) as [|c s IH]; [reflexivity|]. cbn [forallb map] in *.
+      apply andb_true_iff in Hi as [H1 H2]. rewrite ident_lit by assumption. now apply IH. }
+    reflexivity.
 Qed.
 
-(* ---------------------------------------------------------------- the body of a function *)
-Section Body.
+Lemma elems_toks_spec l : forallb elem_ok l = true ->
+  render_toks (elems_toks l) = render_elems l /\ forallb (tok_ok true) (elems_toks l) = true.
+Proof.
+  induction l as [|[i e] l IH]; [split; reflexivity|].
+  cbn [forallb]. intros H. apply andb_true_iff in H as [H1 H2].
+  destruct (elem_toks_spec (i, e) H1) as [R O]. cbn [fst snd] in R.
+  destruct l as [|e2 l].
+  - cbn [elems_toks render_elems]. split; assumption.
+  - destruct (IH H2) as [R2 O2].
+    change (elems_toks ((i, e) :: e2 :: l)) with (elem_toks (i, e) ++ TLit cSP :: elems_toks (e2 :: l)).
+    change (render_elems ((i, e) :: e2 :: l))
+      with ([91] ++ i ++ [93; cEQ] ++ render_vsegs e ++ [cSP] ++ render_elems (e2 :: l)).
+    split.
+    + rewrite render_toks_app, R. change (TLit cSP :: elems_toks (e2 :: l)) with ([TLit cSP] ++ elems_toks (e2 :: l)).
+      rewrite render_toks_app, R2. rewrite <- !app_assoc. reflexivity.
+    + rewrite forallb_app, O. cbn [forallb]. rewrite O2. reflexivity.
+Qed.
+
+Section Main.
 Variable g : str.
 
-Lemma ps_ws w : forall n p T endc vm fm ws out,
-  forallb isspace w = true -> isspace endc = false ->
-  process_scope g (length w + n) (mkcur p (w ++ T)) endc vm fm ws None out
-  = process_scope g n (mkcur (lastp p w) T) endc vm fm ws None out.
+Lemma VAL v : value_ok v = true ->
+  forall m p rest endc, (m > length (render_value v) + 2)%nat ->
+  env_value g m (mkcur p (render_value v ++ cNL :: rest)) endc
+  = Ok (mkcur (lastp p (render_value v)) (cNL :: rest)).
 Proof.
-  induction w as [|c w IH]; intros n p T endc vm fm ws out H He; [reflexivity|].
-  cbn [forallb] in H. apply andb_true_iff in H as [H1 H2].
-  cbn [length plus app]. rewrite process_scope_S. cbn [suf].
-  destruct (N.eqb_spec c endc) as [->|_]; [congruence|].
-  rewrite H1. cbn iota. rewrite adv1_cons. now rewrite IH.
-Qed.
-
-Lemma ps_stmt_step text0 rest n p ws out :
-  stmt_start_ok text0 = true ->
-  process_scope g (S n) (mkcur p (text0 ++ rest)) cRB None None ws None out =
-    (do c1 <- walk_complex g n (mkcur p (text0 ++ rest)) cRB COMMAND true;
-     process_scope g n (match hd_ c1 with
-                        | Some x => if x =? cRB then c1 else adv1 c1
-                        | None => c1 end) cRB None None ws None out).
-Proof.
-  intros H. destruct text0 as [|c r]; [discriminate|]. unfold stmt_start_ok in H.
-  apply andb_true_iff in H as [H HG]. apply andb_true_iff in H as [H HF].
-  apply andb_true_iff in H as [H HE]. apply andb_true_iff in H as [H HD].
-  apply andb_true_iff in H as [H HC]. apply andb_true_iff in H as [HA HB].
-  destruct (word_then (c :: r)) as [d|] eqn:W; [|discriminate].
-  apply negb_true_iff in HA, HB, HC, HD, HG.
-  cbn [app]. rewrite process_scope_S. cbn [suf]. rewrite HC, HA, HB.
-  rewrite (is_function_none p c (r ++ rest) d); auto.
-  - rewrite is_envvar_none; auto.
-    change (c :: r ++ rest) with ((c :: r) ++ rest). now apply no_eq_app.
-  - change (c :: r ++ rest) with ((c :: r) ++ rest). now apply diverges_app.
-  - change (c :: r ++ rest) with ((c :: r) ++ rest). now apply word_then_app.
-Qed.
-
-Lemma PB b : forall n p rest ws out,
-  body_ok b = true -> (n > length (render_body b))%nat ->
-  exists out', process_scope g n (mkcur p (render_body b ++ cRB :: rest)) cRB None None ws None out
-               = Ok (mkcur (lastp p (render_body b)) (cRB :: rest), out').
-Proof.
-  induction b as [|s b IH]; intros n p rest ws out Hb Hn.
-  - destruct n as [|n]; [cbn in Hn; lia|]. rewrite process_scope_S. cbn [render_body flat_map app suf].
-    change (cRB =? cRB) with true. cbn iota. eauto.
-  - cbn [body_ok] in Hb. apply andb_true_iff in Hb as [Hs Hb]. unfold stmt_ok in Hs.
-    apply andb_true_iff in Hs as [Hs Hst]. apply andb_true_iff in Hs as [Hs Hw].
-    apply andb_true_iff in Hs as [Hs H1].
-    destruct s as [toks sep sws]. cbn [s_toks s_sep s_ws] in *.
-    change (render_body ({| s_toks := toks; s_sep := sep; s_ws := sws |} :: b))
-      with (render_stmt {| s_toks := toks; s_sep := sep; s_ws := sws |} ++ render_body b) in *.
-    unfold render_stmt in *. cbn [s_toks s_sep s_ws] in *.
-    rewrite !app_length in Hn. cbn [length] in Hn.
-    destruct n as [|n]; [lia|].
-    replace (((render_toks toks ++ [sep] ++ sws) ++ render_body b) ++ cRB :: rest)
-      with (((render_toks toks ++ [sep] ++ sws) ++ render_body b ++ [cRB]) ++ rest)
-      by (rewrite <- !app_assoc; reflexivity).
-    rewrite ps_stmt_step by exact Hst.
-    replace (((render_toks toks ++ [sep] ++ sws) ++ render_body b ++ [cRB]) ++ rest)
-      with (render_toks toks ++ sep :: (sws ++ render_body b ++ cRB :: rest))
-      by (rewrite <- !app_assoc; reflexivity).
-    assert (Hsep : sep = cSEMI \/ sep = cNL).
-    { apply orb_true_iff in H1 as [E|E]; apply N.eqb_eq in E; auto. }
-    rewrite (WCc_all g toks Hs); [|assumption|lia]. cbn [bind hd_ suf].
-    assert (sep =? cRB = false) as -> by (destruct Hsep; subst; reflexivity).
-    rewrite adv1_cons.
-    replace n with (length sws + (n - length sws))%nat by lia.
-    rewrite ps_ws by (assumption || reflexivity).
-    destruct (IH (n - length sws)%nat (lastp (Some sep) sws) rest ws out Hb ltac:(lia)) as [o Ho].
-    exists o. rewrite Ho. f_equal. f_equal. f_equal.
-    unfold lastp. rewrite !fold_left_app. cbn [fold_left]. reflexivity.
-Qed.
-End Body.
-
-(* ---------------------------------------------------------------- values of assignments *)
-Section Values.
-Variable g : str.
-
-Lemma render_vsegs_cons v l : render_vsegs (v :: l) = render_vseg v ++ render_vsegs l.
-Proof. reflexivity. Qed.
-
-Lemma walk_dollar_ansi l n p rest endc :
-  forallb ansi_pair l = true -> (n > 0)%nat ->
-  walk_dollar g n (mkcur p (cSQ :: render_pairs l ++ cSQ :: rest)) endc false = Ok (mkcur (Some cSQ) rest).
-Proof.
-  intros H Hn. destruct n as [|n]; [lia|]. rewrite walk_dollar_S. cbn [suf].
-  change (cSQ =? cLP) with false. change (cSQ =? cSQ) with true. cbn [andb negb].
-  rewrite adv1_cons. unfold walk_dollared. cbn [prev suf]. rewrite walk_dollared_app by assumption.
-  reflexivity.
-Qed.
-
-(* SPACE_PARSING walk (endchar " ") over the rest of a scalar value *)
-Definition WSc (l : list vseg) : Prop :=
-  forall n p rest first, (n > length (render_vsegs l))%nat ->
-  walk_complex g n (mkcur p (render_vsegs l ++ cNL :: rest)) cSP SPACE first
-  = Ok (mkcur (lastp p (render_vsegs l)) (cNL :: rest)).
-
-Lemma WSc_nil : WSc [].
-Proof.
-  intros n p rest first Hn. destruct n as [|n]; [cbn in Hn; lia|]. reflexivity.
-Qed.
-
-Lemma ws_bare s : forall m p X first,
-  forallb bare_char s = true ->
-  exists f', walk_complex g (length s + m) (mkcur p (s ++ X)) cSP SPACE first
-             = walk_complex g m (mkcur (lastp p s) X) cSP SPACE f'.
-Proof.
-  induction s as [|c s IH]; intros m p X first H; [exists first; reflexivity|].
-  cbn [forallb] in H. apply andb_true_iff in H as [H1 H2].
-  unfold bare_char in H1. apply andb_true_iff in H1 as [Hsp Hm]. apply negb_true_iff in Hsp.
-  cbn [length plus app]. rewrite walk_complex_S. cbn [suf].
-  destruct (IH m (Some c) X false H2) as [f' Hf].
-  exists f'. change (lastp p (c :: s)) with (lastp (Some c) s). rewrite <- Hf. clear Hf IH.
-  ctest Hm; try (exfalso; cbv in Hsp; discriminate Hsp); rewrite ?Hsp; cbn [orb andb negb SPACE]; rewrite ?adv1_cons; reflexivity.
-Qed.
-
-Lemma WSc_cons v l : vseg_ok v = true -> WSc l -> WSc (v :: l).
-Proof.
-  intros Hok IH n p rest first Hn. rewrite render_vsegs_cons in *.
-  destruct v as [s|s|c|pl|pl]; cbn [render_vseg vseg_ok] in *; rewrite ?app_length in Hn; cbn [length] in Hn.
-  - (* VBare *)
-    apply andb_true_iff in Hok as [_ Hok].
-    rewrite <- app_assoc.
-    replace n with (length s + (n - length s))%nat by lia.
-    destruct (ws_bare s (n - length s)%nat p (render_vsegs l ++ cNL :: rest) first Hok) as [f' Hf].
-    rewrite Hf. rewrite IH by lia. lastp_norm.
-  - (* VSq *)
-    destruct n as [|n]; [lia|].
-    replace (([cSQ] ++ s ++ [cSQ]) ++ render_vsegs l) with (cSQ :: (s ++ cSQ :: render_vsegs l))
+  intros Hv m p rest endc Hm. destruct v as [l|l]; cbn [render_value value_ok] in *.
+  - apply EV; [assumption|lia].
+  - destruct (elems_toks_spec l Hv) as [R O]. rewrite <- R in *.
+    rewrite !app_length in Hm. cbn [length] in Hm.
+    destruct m as [|m]; [lia|].
+    replace (([cLP] ++ render_toks (elems_toks l) ++ [cRP]) ++ cNL :: rest)
+      with (cLP :: (render_toks (elems_toks l) ++ cRP :: cNL :: rest))
       by (cbn; rewrite <- !app_assoc; reflexivity).
-    cbn [app]. rewrite <- app_assoc. cbn [app].
-    rewrite walk_complex_S. cbn [suf]. assert (Hs' := forallb_neq_sq s Hok).
-    cbn -[walk_no_parsing walk_complex]. rewrite ?adv1_cons.
-    rewrite walk_no_parsing_app by assumption. rewrite adv1_cons.
-    (rewrite IH; [|lia]); lastp_norm.
-  - (* VEsc *)
-    destruct n as [|n]; [lia|]. cbn [app].
-    rewrite walk_complex_S. cbn [suf]. cbn. rewrite ?adv1_cons. (rewrite IH; [|lia]); lastp_norm.
-  - (* VAnsi *)
-    destruct n as [|n]; [lia|].
-    replace (([cDOL; cSQ] ++ render_pairs pl ++ [cSQ]) ++ render_vsegs l)
-      with (cDOL :: (cSQ :: render_pairs pl ++ cSQ :: render_vsegs l))
-      by (cbn; rewrite <- !app_assoc; reflexivity).
-    cbn [app]. rewrite <- app_assoc. cbn [app].
-    rewrite walk_complex_S. cbn [suf].
-    cbn -[walk_dollar walk_complex]. rewrite ?adv1_cons.
-    (rewrite walk_dollar_ansi; [|assumption|lia]). cbn [bind].
-    (rewrite IH; [|lia]); lastp_norm.
-  - (* VDq *)
-    destruct n as [|n]; [lia|].
-    replace (([cDQ] ++ render_pairs pl ++ [cDQ]) ++ render_vsegs l)
-      with (cDQ :: (render_pairs pl ++ cDQ :: render_vsegs l))
-      by (cbn; rewrite <- !app_assoc; reflexivity).
-    cbn [app]. rewrite <- app_assoc. cbn [app].
-    rewrite walk_complex_S. cbn [suf].
-    cbn -[walk_escaped walk_complex]. rewrite ?adv1_cons.
-    (rewrite walk_dq; [|assumption|lia]). cbn [bind]. rewrite adv1_cons.
-    (rewrite IH; [|lia]); lastp_norm.
+    rewrite env_value_S. cbn [suf]. cbn -[walk_escaped env_value]. rewrite ?adv1_cons.
+    rewrite (WEc_all g _ O) by (auto || lia). cbn [bind]. rewrite adv1_cons.
+    rewrite env_value_nl by lia. lastp_norm.
 Qed.
 
-Lemma WSc_all l : forallb vseg_ok l = true -> WSc l.
+Lemma def_STEP d : def_ok d = true -> STEP g d.
 Proof.
-  induction l as [|v l IH]; intros H; [apply WSc_nil|].
-  cbn [forallb] in H. apply andb_true_iff in H as [H1 H2]. apply WSc_cons; auto.
+  destruct d as [n v|n lead b]; cbn [def_ok]; intros H.
+  - apply andb_true_iff in H as [H1 H2]. apply STEP_assign; auto. now apply VAL.
+  - apply andb_true_iff in H as [H H3]. apply andb_true_iff in H as [H1 H2]. now apply STEP_func.
 Qed.
-End Values.
+End Main.
 
-Section EnvValue.
-Variable g : str.
-
-Lemma env_value_else n p c r endc :
-  isspace c = false -> mem c [cSEMI; cSQ; cDQ; cBQ; cLP; cDOL] = false ->
-  env_value g (S n) (mkcur p (c :: r)) endc =
-  (do c1 <- walk_complex g n (mkcur p (c :: r)) cSP SPACE true; env_value g n c1 endc).
+(* ---------------------------------------------------------------- the name lists *)
+Lemma build_match_spec names wl :
+  names_ok names = true ->
+  exists m, build_match names wl = match names with [] => None | _ => Some (Some m) end
+            /\ forall n, (match names with [] => false | _ => m n end) = dropped names wl n.
 Proof.
-  intros Hs Hm. rewrite env_value_S. cbn [suf]. rewrite Hs.
-  assert (Hm' : negb (mem c [cSEMI; cSQ; cDQ; cBQ; cLP; cDOL]) = true) by now rewrite Hm.
-  ctest Hm'; reflexivity.
-Qed.
-
-Lemma env_value_nl n p rest endc : (n > 0)%nat ->
-  env_value g n (mkcur p (cNL :: rest)) endc = Ok (mkcur p (cNL :: rest)).
-Proof. intros Hn. destruct n; [lia|]. reflexivity. Qed.
-
-Lemma EV l : forall n p rest endc,
-  forallb vseg_ok l = true -> (n > length (render_vsegs l) + 1)%nat ->
-  env_value g n (mkcur p (render_vsegs l ++ cNL :: rest)) endc
-  = Ok (mkcur (lastp p (render_vsegs l)) (cNL :: rest)).
-Proof.
-  induction l as [|v l IH]; intros n p rest endc H Hn.
-  - apply env_value_nl. lia.
-  - assert (Hall := H). cbn [forallb] in H. apply andb_true_iff in H as [Hv Hl].
-    destruct n as [|n]; [lia|].
-    destruct v as [s|s|c|pl|pl].
-    + (* VBare *)
-      cbn [vseg_ok] in Hv. apply andb_true_iff in Hv as [Hne Hb].
-      destruct s as [|c s]; [discriminate|]. cbn [forallb] in Hb. apply andb_true_iff in Hb as [Hc Hb].
-      unfold bare_char in Hc. apply andb_true_iff in Hc as [Hsp Hm]. apply negb_true_iff in Hsp.
-      assert (Hm2 : mem c [cSEMI; cSQ; cDQ; cBQ; cLP; cDOL] = false).
-      { unfold mem in *. cbn [existsb] in *. apply negb_true_iff in Hm.
-        repeat (apply orb_false_iff in Hm as [? Hm]).
-        repeat (apply orb_false_iff; split); assumption. }
-      change (render_vsegs (VBare (c :: s) :: l) ++ cNL :: rest)
-        with (c :: (s ++ render_vsegs l) ++ cNL :: rest).
-      rewrite env_value_else by assumption.
-      change (c :: (s ++ render_vsegs l) ++ cNL :: rest)
-        with (render_vsegs (VBare (c :: s) :: l) ++ cNL :: rest).
-      rewrite (WSc_all g _ Hall) by lia. cbn [bind]. apply env_value_nl. lia.
-    + (* VSq *)
-      cbn [vseg_ok] in Hv. assert (Hs' := forallb_neq_sq s Hv).
-      rewrite render_vsegs_cons in *. cbn [render_vseg] in *. rewrite !app_length in Hn. cbn [length] in Hn.
-      replace ((([cSQ] ++ s ++ [cSQ]) ++ render_vsegs l) ++ cNL :: rest)
-        with (cSQ :: (s ++ cSQ :: (render_vsegs l ++ cNL :: rest)))
-        by (cbn; rewrite <- !app_assoc; reflexivity).
-      rewrite env_value_S. cbn [suf]. cbn -[walk_no_parsing env_value]. rewrite ?adv1_cons.
-      rewrite walk_no_parsing_app by assumption. rewrite ?adv1_cons.
-      (rewrite IH; [|assumption|lia]). lastp_norm.
-    + (* VEsc *)
-      change (render_vsegs (VEsc c :: l) ++ cNL :: rest) with (cBS :: (c :: render_vsegs l) ++ cNL :: rest).
-      rewrite env_value_else by reflexivity.
-      change (cBS :: (c :: render_vsegs l) ++ cNL :: rest) with (render_vsegs (VEsc c :: l) ++ cNL :: rest).
-      rewrite (WSc_all g _ Hall) by lia. cbn [bind]. apply env_value_nl. lia.
-    + (* VAnsi *)
-      cbn [vseg_ok] in Hv.
-      rewrite render_vsegs_cons in *. cbn [render_vseg] in *. rewrite !app_length in Hn. cbn [length] in Hn.
-      replace ((([cDOL; cSQ] ++ render_pairs pl ++ [cSQ]) ++ render_vsegs l) ++ cNL :: rest)
-        with (cDOL :: (cSQ :: render_pairs pl ++ cSQ :: (render_vsegs l ++ cNL :: rest)))
-        by (cbn; rewrite <- !app_assoc; reflexivity).
-      rewrite env_value_S. cbn [suf]. cbn -[walk_dollar env_value]. rewrite ?adv1_cons.
-      (rewrite walk_dollar_ansi; [|assumption|lia]). cbn [bind].
-      (rewrite IH; [|assumption|lia]). lastp_norm.
-    + (* VDq *)
-      cbn [vseg_ok] in Hv.
-      rewrite render_vsegs_cons in *. cbn [render_vseg] in *. rewrite !app_length in Hn. cbn [length] in Hn.
-      replace ((([cDQ] ++ render_pairs pl ++ [cDQ]) ++ render_vsegs l) ++ cNL :: rest)
-        with (cDQ :: (render_pairs pl ++ cDQ :: (render_vsegs l ++ cNL :: rest)))
-        by (cbn; rewrite <- !app_assoc; reflexivity).
-      rewrite env_value_S. cbn [suf]. cbn -[walk_escaped env_value]. rewrite ?adv1_cons.
-      (rewrite walk_dq; [|assumption|lia]). cbn [bind]. rewrite ?adv1_cons.
-      (rewrite IH; [|assumption|lia]). lastp_norm.
-Qed.
-End EnvValue.
-
-(* ---------------------------------------------------------------- heads of definitions *)
-Lemma starts_with_sep w : forall n x X,
-  existsb (N.eqb x) w = false -> starts_with w (n ++ x :: X) = true -> starts_with w n = true.
-Proof.
-  induction w as [|a w IH]; intros n x X Hx H; [destruct n; reflexivity|].
-  cbn [existsb] in Hx. apply orb_false_iff in Hx as [Hxa Hx].
-  destruct n as [|b n]; cbn [app starts_with] in *.
-  - apply andb_true_iff in H as [H _]. rewrite N.eqb_sym in H. congruence.
-  - apply andb_true_iff in H as [H1 H2]. rewrite H1. cbn. eapply IH; eauto.
+  intros H. destruct names as [|a names]; [exists (fun _ => false); split; reflexivity|].
+  unfold names_ok in H. unfold build_match.
+  destruct (filter nonempty (a :: names)) as [|t ts] eqn:E.
+  - exfalso. apply existsb_exists in H as (x & Hin & Hx).
+    assert (In x (filter nonempty (a :: names))) by (apply filter_In; auto). rewrite E in H. destruct H.
+  - exists (fun name => xorb wl (str_mem name (t :: ts))). split; [reflexivity|].
+    intros n. unfold dropped. rewrite E. reflexivity.
 Qed.
 
-Lemma ident_facts c : is_ident c = true ->
-  isspace c = false /\ isblank c = false /\ name_stop c = false /\ envvar_stop c = false
-  /\ (c =? cEQ) = false /\ (c =? cHASH) = false /\ (c =? cNUL) = false.
+Lemma expected_filtered vars funcs vwl fwl vm fm ds :
+  (forall n, (match vm with Some f => f n | None => false end) = dropped vars vwl n) ->
+  (forall n, (match fm with Some f => f n | None => false end) = dropped funcs fwl n) ->
+  expected vm fm ds = render_filtered vars funcs vwl fwl ds.
 Proof.
-  unfold is_ident. intros H.
-  repeat split;
-    match goal with |- ?f = false => destruct f eqn:E; [|reflexivity] end; exfalso;
-    unfold isspace, isblank, name_stop, envvar_stop, mem in E; cbn [existsb] in E;
-    repeat (apply orb_true_iff in E as [E|E]); try discriminate E;
-    repeat (apply andb_true_iff in E as [? E]);
-    repeat match goal with Hq : (_ =? _) = true |- _ => apply N.eqb_eq in Hq; subst; cbv in H; discriminate H end;
-    repeat match goal with Hq : (_ <=? _) = true |- _ => apply N.leb_le in Hq end;
-    repeat (apply orb_true_iff in H as [H|H]); repeat (apply andb_true_iff in H as [? H]);
-    repeat match goal with Hq : (_ <=? _) = true |- _ => apply N.leb_le in Hq end;
-    repeat match goal with Hq : (_ =? _) = true |- _ => apply N.eqb_eq in Hq end; unfold cUS in *; lia.
+  intros Hv Hf. unfold expected, render_filtered. apply flat_map_ext. intros d.
+  destruct d as [n v|n l b]; cbn [dropf drop_def is_func def_name]; now rewrite ?Hv, ?Hf.
 Qed.
 
-Lemma fname_facts c : fname_char c = true ->
-  isspace c = false /\ isblank c = false /\ name_stop c = false /\ (c =? cHASH) = false /\ (c =? cNUL) = false.
+Lemma run_buf_filtered ds vars funcs vwl fwl vm fm :
+  forallb def_ok ds = true ->
+  (forall n, (match vm with Some f => f n | None => false end) = dropped vars vwl n) ->
+  (forall n, (match fm with Some f => f n | None => false end) = dropped funcs fwl n) ->
+  run_buf (render ds ++ [cNUL]) vm fm = Ok (render_filtered vars funcs vwl fwl ds).
 Proof.
-  unfold fname_char. intros H. destruct (is_ident c) eqn:Hi.
-  - destruct (ident_facts c Hi) as (?&?&?&?&?&?&?). auto.
-  - cbn [orb] in H.
-    repeat (apply orb_true_iff in H as [H|H]);
-      apply N.eqb_eq in H; subst; repeat split; reflexivity.
+  intros Hd Hvm Hfm.
+  assert (HS : Forall (STEP (render ds ++ [cNUL])) ds).
+  { apply Forall_forall. intros d Hin. apply def_STEP. rewrite forallb_forall in Hd. now apply Hd. }
+  unfold run_buf.
+  match goal with
+  | |- bind ?Q _ = _ =>
+      assert (T : out_of Q = Some ([] ++ [] ++ expected vm fm ds))
+        by (apply (TL (render ds ++ [cNUL]) ds HS); [reflexivity | unfold fuel_of; lia]);
+      destruct Q as [[c o]| |]
+  end; cbn [out_of] in T; try discriminate T.
+  rewrite (expected_filtered vars funcs vwl fwl vm fm ds Hvm Hfm) in T. cbn [app] in T.
+  inversion T; subst. reflexivity.
 Qed.
 
-Lemma forallb_impl {A} (f h : A -> bool) l :
-  (forall x, f x = true -> h x = true) -> forallb f l = true -> forallb h l = true.
+(* filter (render ds) = render-with-gaps (filter_ast ds), blacklist and whitelist mode alike *)
+Theorem filter_commutes_proof : forall ds vars funcs vwl fwl,
+  forallb def_ok ds = true -> names_ok vars = true -> names_ok funcs = true ->
+  main_run (render ds) vars funcs vwl fwl = MOut (render_filtered vars funcs vwl fwl ds).
 Proof.
-  intros I. induction l as [|x l IH]; cbn; [reflexivity|]. intros H.
-  apply andb_true_iff in H as [H1 H2]. rewrite (I _ H1). now apply IH.
+  intros ds vars funcs vwl fwl Hd Hv Hf. unfold main_run.
+  destruct (build_match_spec vars vwl Hv) as (mv & Ev & Sv).
+  destruct (build_match_spec funcs fwl Hf) as (mf & Ef & Sf).
+  rewrite Ev, Ef. clear Ev Ef.
+  destruct vars as [|v0 vars], funcs as [|f0 funcs]; cbv iota;
+    erewrite run_buf_filtered; try reflexivity; try assumption; intros n; cbv iota beta;
+    first [exact (Sv n) | exact (Sf n) | reflexivity].
 Qed.
 
-Lemma kw_no (x : N) : x = cEQ \/ x = cSP -> existsb (N.eqb x) kw_function = false.
-Proof. intros [->| ->]; reflexivity. Qed.
-
-(* NAME=... *)
-Lemma envvar_scan_ident n : forall p X,
-  forallb is_ident n = true ->
-  envvar_scan false p (n ++ cEQ :: X) = Some (mkcur (Some cEQ) X).
+(* ---------------------------------------------------------------- corollaries *)
+Theorem never_out_of_fuel_partial_proof : forall ds vars funcs vwl fwl,
+  forallb def_ok ds = true -> names_ok vars = true -> names_ok funcs = true ->
+  main_run (render ds) vars funcs vwl fwl <> MFuel /\ main_run (render ds) vars funcs vwl fwl <> MIndex.
 Proof.
-  induction n as [|c n IH]; intros p X H.
-  - reflexivity.
-  - cbn [forallb] in H. apply andb_true_iff in H as [H1 H2].
-    destruct (ident_facts c H1) as (_&_&_&Hs&He&_&_).
-    cbn [app envvar_scan]. rewrite Hs, He. now apply IH.
+  intros. rewrite filter_commutes_proof by assumption. split; discriminate.
 Qed.
 
-Lemma is_envvar_assign p n X :
-  var_name_ok n = true ->
-  is_envvar (mkcur p (n ++ cEQ :: X)) = Some (n, mkcur (Some cEQ) X).
+(* the output consists of whole rendered definitions and newline separators only, in order *)
+Theorem no_stray_bytes_proof : forall ds vars funcs vwl fwl,
+  forallb def_ok ds = true -> names_ok vars = true -> names_ok funcs = true ->
+  exists keep : list bool,
+    length keep = length ds /\
+    main_run (render ds) vars funcs vwl fwl
+    = MOut (flat_map (fun kd : bool * def => (if fst kd then render_def (snd kd) else []) ++ [cNL]) (combine keep ds))
+    /\ forall i d, nth_error ds i = Some d ->
+         nth_error keep i = Some (negb (drop_def vars funcs vwl fwl d)).
 Proof.
-  unfold var_name_ok. intros H. apply andb_true_iff in H as [H _]. apply andb_true_iff in H as [Hne Hid].
-  destruct n as [|c n]; [discriminate|]. cbn [forallb] in Hid. apply andb_true_iff in Hid as [Hc Hid].
-  destruct (ident_facts c Hc) as (_&Hb&_&Hs&He&_&_).
-  unfold is_envvar. cbn [prev suf app skip_while]. rewrite Hb. cbn [opt_bind prev suf envvar_scan].
-  rewrite Hs, He. rewrite envvar_scan_ident by assumption. cbn [opt_bind suf].
-  f_equal. f_equal. cbn [length]. rewrite app_length. cbn [length].
-  replace (S (length n + S (length X)) - length X - 1)%nat with (S (length n)) by lia.
-  change (c :: n ++ cEQ :: X) with ((c :: n) ++ cEQ :: X).
-  rewrite firstn_app. replace (S (length n) - length (c :: n))%nat with 0%nat by (cbn; lia).
-  rewrite firstn_all2 by (cbn; lia). cbn. f_equal. apply app_nil_r.
+  intros ds vars funcs vwl fwl Hd Hv Hf.
+  exists (map (fun d => negb (drop_def vars funcs vwl fwl d)) ds).
+  split; [apply map_length|]. split.
+  - rewrite filter_commutes_proof by assumption. f_equal. unfold render_filtered.
+    clear. induction ds as [|d ds IH]; [reflexivity|]. cbn [map combine flat_map fst snd].
+    rewrite IH. destruct (drop_def vars funcs vwl fwl d); reflexivity.
+  - intros i d Hi. rewrite nth_error_map, Hi. reflexivity.
 Qed.
 
-Lemma skip_name n : forall p x X,
-  forallb (fun c => negb (name_stop c)) n = true -> name_stop x = true ->
-  skip_while (fun c => negb (name_stop c)) p (n ++ x :: X) = Some (mkcur (lastp p n) (x :: X)).
-Proof. intros. apply skip_while_app; [assumption|]. now rewrite H0. Qed.
-
-Lemma is_function_assign p n X :
-  var_name_ok n = true -> is_function (mkcur p (n ++ cEQ :: X)) = None.
+(* the relation to filter_ast: the output is render (filter_ast ds) with one extra newline where a
+   definition was dropped *)
+Lemma render_filter_ast_proof vars funcs vwl fwl ds :
+  render (filter_ast vars funcs vwl fwl ds)
+  = flat_map (fun d => if drop_def vars funcs vwl fwl d then [] else render_def d ++ [cNL]) ds
+  /\ render_filtered vars funcs vwl fwl ds
+  = flat_map (fun d => if drop_def vars funcs vwl fwl d then [cNL] else render_def d ++ [cNL]) ds.
 Proof.
-  unfold var_name_ok. intros H. apply andb_true_iff in H as [H Hk]. apply andb_true_iff in H as [Hne Hid].
-  apply negb_true_iff in Hk.
-  assert (Hk' : starts_with kw_function (n ++ cEQ :: X) = false).
-  { destruct (starts_with kw_function (n ++ cEQ :: X)) eqn:E; [|reflexivity].
-    apply starts_with_sep in E; [congruence|]. apply kw_no; auto. }
-  assert (Hns : forallb (fun c => negb (name_stop c)) n = true).
-  { eapply forallb_impl; [|exact Hid]. intros x Hx. destruct (ident_facts x Hx) as (_&_&E&_). now rewrite E. }
-  destruct n as [|c n]; [discriminate|]. cbn [forallb] in Hid. apply andb_true_iff in Hid as [Hc Hid].
-  destruct (ident_facts c Hc) as (Hsp&Hb&_).
-  unfold is_function. cbn [prev suf app skip_while]. rewrite Hb. cbn [opt_bind prev suf].
-  change (c :: n ++ cEQ :: X) with ((c :: n) ++ cEQ :: X). rewrite Hk'.
-  cbn [prev suf]. cbn [app skip_while]. rewrite Hsp. cbn [opt_bind prev suf].
-  change (c :: n ++ cEQ :: X) with ((c :: n) ++ cEQ :: X).
-  rewrite skip_name by (assumption || reflexivity). cbn [opt_bind suf prev].
-  rewrite slice_app. cbn [skip_while]. change (isblank cEQ) with false. cbn [opt_bind suf].
-  reflexivity.
+  split.
+  - unfold render, filter_ast. induction ds as [|d ds IH]; [reflexivity|]. cbn [filter flat_map].
+    destruct (drop_def vars funcs vwl fwl d); cbn [negb flat_map]; now rewrite IH.
+  - unfold render_filtered. apply flat_map_ext. intros d. destruct (drop_def vars funcs vwl fwl d); reflexivity.
 Qed.
 
-(* NAME () newline { *)
-Lemma is_function_head p n Y :
-  func_name_ok n = true ->
-  is_function (mkcur p (func_head n ++ Y)) = Some (n, mkcur (Some cLB) Y).
+(* ---------------------------------------------------------------- non-vacuity *)
+Definition s_ (l : list N) : str := l.
+(*  FOO=a'b c'\''d'  A=([0]="x y" [1]=$'p\nq')  f () { echo "}" '{' ${x%y}; { echo a; }; }  *)
+Definition ex_defs : list def :=
+  [ Assign [70;79;79] (QScalar [VBare [97]; VSq [98;32;99]; VEsc 39; VSq [100]]);
+    Assign [65] (QArray [([48], [VDq [(false,120);(false,32);(false,121)]]);
+                         ([49], [VAnsi [(false,112);(true,110);(false,113)]])]);
+    Func [102] [32;10;32;32;32;32]
+      [ {| s_toks := [TLit 101;TLit 99;TLit 104;TLit 111;TLit 32;TDq [(false,125)];TLit 32;TSq [123];TLit 32;
+                      TPE [120;37;121]];
+           s_sep := 59; s_ws := [10;32;32;32;32] |};
+        {| s_toks := [TBr [TLit 32;TLit 10;TLit 101;TLit 99;TLit 104;TLit 111;TLit 32;TLit 97;TLit 10;TLit 32]];
+           s_sep := 10; s_ws := [] |} ] ].
+
+Example ex_defs_ok : forallb def_ok ex_defs = true.
+Proof. vm_compute. reflexivity. Qed.
+Example ex_filter_blacklist :
+  main_run (render ex_defs) [[70;79;79]] [[102]] false false = MOut [10; 65;61;40;91;48;93;61;34;120;32;121;34;32;91;49;93;61;36;39;112;92;110;113;39;41;10; 10].
+Proof. vm_compute. reflexivity. Qed.
+Example ex_filter_whitelist :
+  main_run (render ex_defs) [[70;79;79]] [] true false
+  = MOut (render_filtered [[70;79;79]] [] true false ex_defs).
+Proof. vm_compute. reflexivity. Qed.
+
+(* ---------------------------------------------------------------- where the scanner fails *)
+(* A dump bash itself prints (checked against real bash by the harness, corpus/C34/witness.json):
+     f ()                      bash source:  f() { { echo }; }; }
+     {
+         {
+             echo }
+         }
+     }
+     Z=1
+   Filtering out f leaves a stray "}" line: the literal "}" word closes the group early. *)
+Definition witness_f : str :=
+  [102;32;40;41;32;10;123;32;10;32;32;32;32;123;32;10;32;32;32;32;32;32;32;32;101;99;104;111;32;125;10;
+   32;32;32;32;125;10;125;10].
+Definition witness_input : dump_input :=
+  (([((true, [102]), witness_f); ((false, [90]), [90;61;49;10])], @nil str, [[102]]), (false, false)).
+
+Theorem filter_commutes_refuted_proof :
+  spec_dump_ok witness_input (run_dump witness_input) = false
+  /\ run_dump witness_input = digest [10;125;10;90;61;49;10].
+Proof. vm_compute. split; reflexivity. Qed.
+
+(* the here-document with an empty delimiter: the scanner does not terminate (model: out of fuel) *)
+Theorem never_out_of_fuel_refuted_proof :
+  main_run [102;32;40;41;32;10;123;32;10;32;32;32;32;99;97;116;32;60;60;39;39;10;120;10;10;125;10]
+           [] [[102]] false false = MFuel.
+Proof. vm_compute. reflexivity. Qed.
+
+(* ---------------------------------------------------------------- the full statement and its refutation *)
+(* the property for EVERY dump AST (no restriction on the token trees of function bodies) *)
+Definition filter_commutes_full : Prop :=
+  forall ds vars funcs vwl fwl, names_ok vars = true -> names_ok funcs = true ->
+  main_run (render ds) vars funcs vwl fwl = MOut (render_filtered vars funcs vwl fwl ds).
+
+Definition witness_defs : list def :=
+  [ Func [102] [32;10;32;32;32;32]
+      [ {| s_toks := [TBr [TLit 32;TLit 10;TLit 32;TLit 32;TLit 32;TLit 32;TLit 32;TLit 32;TLit 32;TLit 32;
+                           TLit 101;TLit 99;TLit 104;TLit 111;TLit 32;TLit 125;TLit 10;TLit 32;TLit 32;TLit 32;TLit 32]];
+           s_sep := 10; s_ws := [] |} ];
+    Assign [90] (QScalar [VBare [49]]) ].
+
+Example witness_defs_render : render witness_defs = witness_f ++ [90;61;49;10].
+Proof. vm_compute. reflexivity. Qed.
+Example witness_defs_not_ok : forallb def_ok witness_defs = false.
+Proof. vm_compute. reflexivity. Qed.
+
+Theorem filter_commutes_refuted_ast_proof : ~ filter_commutes_full.
 Proof.
-  unfold func_name_ok. intros H. apply andb_true_iff in H as [H Hk]. apply andb_true_iff in H as [Hne Hid].
-  apply negb_true_iff in Hk. unfold func_head. rewrite <- app_assoc.
-  set (T := [cSP; cLP; cRP; cSP; cNL; cLB] ++ Y).
-  assert (Hk' : starts_with kw_function (n ++ T) = false).
-  { destruct (starts_with kw_function (n ++ T)) eqn:E; [|reflexivity].
-    unfold T in E. cbn [app] in E. apply starts_with_sep in E; [congruence|]. apply kw_no; auto. }
-  assert (Hns : forallb (fun c => negb (name_stop c)) n = true).
-  { eapply forallb_impl; [|exact Hid]. intros x Hx. destruct (fname_facts x Hx) as (_&_&E&_). now rewrite E. }
-  destruct n as [|c n]; [discriminate|]. cbn [forallb] in Hid. apply andb_true_iff in Hid as [Hc Hid].
-  destruct (fname_facts c Hc) as (Hsp&Hb&_).
-  unfold is_function. cbn [prev suf app skip_while]. rewrite Hb. cbn [opt_bind prev suf].
-  change (c :: n ++ T) with ((c :: n) ++ T). rewrite Hk'.
-  cbn [prev suf]. cbn [app skip_while]. rewrite Hsp. cbn [opt_bind prev suf].
-  change (c :: n ++ T) with ((c :: n) ++ T). unfold T. cbn [app].
-  rewrite skip_name by (assumption || reflexivity). cbn [opt_bind suf prev].
-  rewrite slice_app. reflexivity.
+  intros F. specialize (F witness_defs [] [[102]] false false eq_refl eq_refl).
+  vm_compute in F. discriminate F.
 Qed.
